@@ -814,6 +814,8 @@ def sym_float(x):
 def sym_min(*args, **kw):
     "builtin min with merged If terms"
     if len(args) == 1:
+        if isinstance(args[0], (SymNum, int, float)):
+            return args[0]
         args = tuple(args[0])
     if kw or not any(isinstance(a, SymNum) for a in args):
         return min(*args, **kw)
@@ -826,6 +828,8 @@ def sym_min(*args, **kw):
 
 def sym_max(*args, **kw):
     if len(args) == 1:
+        if isinstance(args[0], (SymNum, int, float)):
+            return args[0]
         args = tuple(args[0])
     if kw or not any(isinstance(a, SymNum) for a in args):
         return max(*args, **kw)
